@@ -110,8 +110,28 @@ class Ctx:
                                          model=model, spec=spec, why=v[1]))
 
 
-def run_ops(ctx, domain_name, pairs):
+def confirm_hangs(ctx, binp, pairs):
+    """A 'hang' is a wall-clock verdict (the op did not return within its limit). On a loaded machine a slow op can be
+    mistaken for one: every op that came back as 'hang' is executed again, alone, in a process of its own, and only an op
+    that does not return then either keeps the verdict."""
+    out, redone = [], 0
+    for op, impl in pairs:
+        if impl == "hang" and redone < 12 and binp and os.path.exists(binp):
+            redone += 1
+            try:
+                rc, again, se = core.run_corr("run", 0, 0, ctx.tier, corr_bin=binp, stdin_ops=op + "\n", timeout=900)
+                if again and again[0][1] != "hang":
+                    ctx.notes.append("op re-run alone after a wall-clock 'hang' under load: " + op[:120])
+                    impl = again[0][1]
+            except Exception as e:  # the confirmation itself failed: keep the verdict
+                ctx.notes.append("hang confirmation failed: %s" % e)
+        out.append((op, impl))
+    return out
+
+
+def run_ops(ctx, domain_name, pairs, binp=None):
     """pairs = [(op, impl)] -> runs the driver and accounts every case"""
+    pairs = confirm_hangs(ctx, binp, pairs)
     ops = [p[0] for p in pairs]
     res = core.run_driver(ops)
     for (op, impl), (model, spec) in zip(pairs, res):
@@ -181,13 +201,13 @@ def stage_corr(ctx, prop, seed_offset=0, scale=1):
         if corpus and seed_offset == 0:
             text = "".join(open(c).read() for c in corpus)
             rc, pairs, se = core.run_corr("run", 0, 0, ctx.tier, corr_bin=binp, stdin_ops=text)
-            run_ops(ctx, d.name, pairs)
+            run_ops(ctx, d.name, pairs, binp)
         n = (d.thorough if ctx.tier == "thorough" else d.quick) * scale
         rc, pairs, se = core.run_corr(d.name, n, ctx.seed + seed_offset, ctx.tier, corr_bin=binp)
         if rc != 0:
             ctx.corr_breaks.append(dict(kind="correspondence", domain=d.name, op="(harness exit %d)" % rc,
                                         impl=se[-500:], model="", spec="", why="harness crashed"))
-        run_ops(ctx, d.name, pairs)
+        run_ops(ctx, d.name, pairs, binp)
         for k, v in core.STATS.items():
             old = ctx.stats.get(k)
             if old is None or v["value"] > old["value"]:
